@@ -9,6 +9,7 @@ import Fir.Model.Resample
 import Fir.Model.ProtoResize
 import Fir.Model.ProtoCoeffs
 import Fir.Model.SimdU8x4
+import Fir.Model.SimdVertU8
 namespace Fir
 
 /-- C02 tolerance between two back-ends: integers identical, f32 a few ulps of a re-associated f64 sum -/
@@ -68,6 +69,41 @@ def handleKernel (fs : List (String × String)) : String :=
                   return some s!"lane model of the SSE4.1 U8x4 kernels: pixel ({x},{y}) channel {ch}: model={px.getD ch 0} got={got[(y * dw + x) * 4 + ch]!}"
           return none
         else none
+      -- 8-bit components on SSE4.1, vertical pass: every destination row is cut into chunks of 32, 8 and (once) 4
+      -- components computed by the lane-accurate model, the rest by the portable formula
+      let laneV : Option String :=
+        if p.kind == .u8 ∧ ext == "sse4" ∧ pass == "v" ∧ got.size == dw * dh * p.n then Id.run do
+          let q := normalize16 c
+          let n := p.n
+          let rowLen := dw * n
+          for y in [0:dh] do
+            let (start, ks) := q.chunks.getD y (0, #[])
+            let ksl := ks.toList
+            let rows : List (List Int) := (List.range ksl.length).map fun r =>
+              (List.range (sw * n)).map fun i => src[(start + r) * sw * n + i]!
+            let mut xs := offset * n          -- `src_x`
+            let mut done := 0                 -- destination components written so far
+            let mut outRow : List Int := []
+            while rowLen - done ≥ 32 do
+              outRow := outRow ++ SimdVertU8.chunk32 q.precision rows ksl xs
+              xs := xs + 32
+              done := done + 32
+            while rowLen - done ≥ 8 do
+              outRow := outRow ++ SimdVertU8.chunk8 q.precision rows ksl xs
+              xs := xs + 8
+              done := done + 8
+            if rowLen - done ≥ 4 then
+              outRow := outRow ++ SimdVertU8.chunk4 q.precision rows ksl xs
+              xs := xs + 4
+              done := done + 4
+            for j in [0:rowLen - done] do
+              outRow := outRow ++ [clip8 (2 ^ (q.precision - 1) + SimdVertU8.dotV rows ksl (xs + j)) q.precision]
+            for i in [0:rowLen] do
+              if outRow.getD i 0 ≠ got[y * rowLen + i]! then
+                return some s!"lane model of the SSE4.1 vertical u8 kernel: row {y} component {i}: model={outRow.getD i 0} got={got[y * rowLen + i]!}"
+          return none
+        else none
+      let lane := match lane with | some a => some a | none => laneV
       let m := match m, lane with
         | some a, _ => some a
         | none, some b => some b
